@@ -893,6 +893,10 @@ func (f *framer) readTypeInfo() TypeInfo {
 	switch simple.typ {
 	case TypeTuple:
 		n := f.readShort()
+		if int(n)*2 > len(f.buf) {
+			// every element description takes at least 2 bytes
+			panic(fmt.Errorf("not enough bytes in buffer to read %d tuple element types got: %d", n, len(f.buf)))
+		}
 		tuple := TupleTypeInfo{
 			NativeType: simple,
 			Elems:      make([]TypeInfo, n),
@@ -912,6 +916,10 @@ func (f *framer) readTypeInfo() TypeInfo {
 		udt.Name = f.readString()
 
 		n := f.readShort()
+		if int(n)*4 > len(f.buf) {
+			// every field takes at least 4 bytes (name length + type id)
+			panic(fmt.Errorf("not enough bytes in buffer to read %d UDT fields got: %d", n, len(f.buf)))
+		}
 		udt.Elements = make([]UDTField, n)
 		for i := 0; i < int(n); i++ {
 			field := &udt.Elements[i]
